@@ -419,7 +419,60 @@ fn sub_sweep(input: &[u8], st: &mut Stats) -> R {
     d.extend(p.words());
     d.extend(W_FUNCTION_END);
     st.evaluations += 1;
-    check_words(&d, st, &|| format!("in-function {}", show_inst(&p.inst())))
+    check_words(&d, st, &|| format!("in-function {}", show_inst(&p.inst())))?;
+    // (e) the same four contexts when an id operand of the instruction names an extended
+    // instruction set imported earlier (semantic, NonSemantic.*, unknown, empty name): where an
+    // instruction belongs is decided by its opcode, never by what its operands refer to
+    let mut idrefs: Vec<u32> = vec![];
+    for o in &p.operands {
+        if let dr::Operand::IdRef(v) = o {
+            if !idrefs.contains(v) && idrefs.len() < 3 {
+                idrefs.push(*v);
+            }
+        }
+    }
+    for (si, set) in EXT_SETS.iter().enumerate() {
+        for &x in &idrefs {
+            let mut imp = vec![11u32, x];
+            imp.extend(str_words(set));
+            imp[0] |= (imp.len() as u32) << 16;
+            for ctx in 0..4 {
+                let mut w = header_words((1, 4), 1000);
+                w.extend(&imp);
+                for q in &prelude {
+                    w.extend(q.words());
+                }
+                match ctx {
+                    0 => w.extend(p.words()),
+                    1 => {
+                        w.extend(W_FUNCTION);
+                        w.extend(p.words());
+                        w.extend(W_FUNCTION_END);
+                    }
+                    2 => {
+                        w.extend(W_FUNCTION);
+                        w.extend(W_LABEL);
+                        w.extend(p.words());
+                        w.extend(W_RETURN);
+                        w.extend(W_FUNCTION_END);
+                    }
+                    _ => {
+                        w.extend(W_FUNCTION);
+                        w.extend(W_LABEL);
+                        w.extend(W_RETURN);
+                        w.extend(W_FUNCTION_END);
+                        w.extend(p.words());
+                    }
+                }
+                st.evaluations += 1;
+                check_words(&w, st, &|| format!("{} with operand %{} naming an import of {:?}, context {}", show_inst(&p.inst()), x, EXT_SETS[si], ["bare at module scope", "in a function outside any block", "inside a block", "after the last function"][ctx]))?;
+            }
+        }
+    }
+    if !idrefs.is_empty() {
+        st.count("opcodes_with_operand_naming_an_import");
+    }
+    Ok(())
 }
 
 /// `ext-inst-contexts`: an extended instruction whose set operand names a real OpExtInstImport
